@@ -17,7 +17,8 @@ RULE = ("(a) generated IR programs traced on the recorder, then their interface-
         "every field element < p); header counts = 1 + #public + #private wires and #public; decoded witness = [1] + "
         "public values (creation order) + private values (creation order), congruent to the recorder's; decoded "
         "constraints equal the recorder's under that numbering (coefficient maps mod p, zero terms ignored); the decoded "
-        "witness satisfies the decoded constraints whenever the recorder's witness satisfies the recorder's. Non-trivial "
+        "witness satisfies the decoded constraints whenever the recorder's witness satisfies the recorder's. Plus deterministic large traces (1 to 1025 [thorough: 10001] constraints, sizes around byte and power-of-two "
+        "boundaries, late public values). Non-trivial "
         "= >= 1 public, >= 1 private, >= 1 constraint and a value outside [0,p); distinct by trace digest.")
 
 P = backends.FIELDS["snarkjs"]
@@ -146,7 +147,29 @@ def shard(seed, n_examples, programs):
     return stats
 
 
+def large_shard(sizes):
+    stats = core.Stats()
+    e = Env()
+    try:
+        for n in sizes:
+            trace = backends.large_trace(n, P)
+            case = {"large": n}
+            msg = quiet(judge, trace, e.mod, e.tmp, None)
+            stats.case(case, True, ("large-trace",), sample_cap=2)
+            if msg:
+                stats.violations.append({"case": case, "msg": "trace with %d constraints: %s" % (n, msg), "key": "large"})
+    finally:
+        e.close()
+    return stats
+
+
 def replay(case):
+    if "large" in case:
+        e = Env()
+        try:
+            return quiet(judge, backends.large_trace(case["large"], P), e.mod, e.tmp, None)
+        finally:
+            e.close()
     e = Env()
     try:
         return quiet(judge, case["trace"], e.mod, e.tmp, case.get("split"))
@@ -161,3 +184,5 @@ def run(ctx):
     n = 150 if ctx.tier == "quick" else 3000
     jobs = [dict(seed=ctx.seed * 1000 + i, n_examples=n, programs=(i % 2 == 0)) for i in range(16)]
     ctx.stats = core.run_shards("harness.checks.c10", "shard", jobs)
+    sizes = [1, 85, 255, 256, 257, 1000, 1001, 1025] if ctx.tier == "quick" else [1, 85, 255, 256, 257, 999, 1000, 1001, 1024, 1025, 2047, 2501, 4097, 10001]
+    ctx.stats.merge_json(core.run_shards("harness.checks.c10", "large_shard", [dict(sizes=sizes[i::8]) for i in range(8)]).to_json())
